@@ -1346,7 +1346,7 @@ class TimeSeries(TimeSeriesBase):
         if e.data.ndim == 0:
             return TimeSeries(data=self.data[..., self.time.slice_during(e)],
                               time_unit=self.time_unit, t0=e.offset,
-                              sampling_rate=self.sampling_rate)
+                              sampling_interval=self.sampling_interval)
         else:
             # TODO: make this a more efficient implementation, naive first pass
             if (e.duration != e.duration[0]).any():
@@ -1357,7 +1357,7 @@ class TimeSeries(TimeSeriesBase):
 
             return TimeSeries(data=data,
                               time_unit=self.time_unit, t0=e.offset,
-                              sampling_rate=self.sampling_rate)
+                              sampling_interval=self.sampling_interval)
 
     @property
     def shape(self):
